@@ -53,7 +53,7 @@ PROPS = {
     "C11": dict(streams=["panic", "shallow"], fields=["D", "P", "E", "F", "heapcounts", "roots"], oracles=["O1", "O2", "O5", "O6"],
                 contract=True, title="panicking destructor", panicapi=True),
     "C12": dict(streams=["api", "raw", "shallow", "giveup", "corpus"], fields=["heap", "R", "E", "D", "F", "vals", "roots", "raws", "C", "W"],
-                oracles=["O1", "O2", "O4", "O8"], contract=False, title="consuming APIs on adopted objects"),
+                oracles=["O1", "O2", "O4", "O8", "O12"], contract=False, title="consuming APIs on adopted objects"),
     "C13": dict(streams=["elide", "exh2e", "corpus"], fields=["D", "E", "heap", "roots"], oracles=["O1", "O2"], contract=False,
                 title="elided unadopt", known="D4", o1_free=True),
     "C14": dict(streams=["contract", "raw", "noadopt", "api"], fields=["T0"], oracles=["O14"], contract=False,
